@@ -144,6 +144,8 @@ class C04(E1):
 class C08(E1):
     ID = "C08"
     OBS_RATE = 0.25
+    OBS_KINDS = ("n", "r", "max_n") * 3 + ("is_exhausted", "is_running",
+                                          "uses:RAM", "uses:DISK")
     RULE = ("as C01 plus reads of n, r, max_n (and the other observers) "
             "interleaved at seeded instants; after every event (and after the "
             "executor's in-action finalize) schedule.n/r/max_n are compared "
